@@ -208,9 +208,20 @@ func GenRuleSet(t *rapid.T, o RuleOpts) *Generated {
 						pre = "Ünï"
 					case k == 6 && !o.NoLowerCase:
 						pre = "élan" // starts with a lower-case letter outside ASCII: elided
+					case k == 7 && !o.IdentNames:
+						pre = "EOF" // a rule may be called like the end-of-input symbol; its tokens are ordinary tokens
 					}
 					name = fmt.Sprintf("%s%d", pre, nameCount)
 					nameCount++
+					if pre == "EOF" {
+						taken := false // one rule of that exact name per rule set
+						for _, p := range pool {
+							taken = taken || p.name == "EOF"
+						}
+						if !taken {
+							name = "EOF"
+						}
+					}
 					var pat *Pat
 					for tries := 0; ; tries++ {
 						pat = GenPat(t, rapid.IntRange(0, 3).Draw(t, "pd"), o.Pat)
